@@ -242,6 +242,26 @@ pub fn case(cx: &mut Case) -> CaseResult {
         Ok(())
     };
     check_all("commit node", commit.as_ref().post_order_iter::<InternalSharing>().map(|d| d.node.cmr()).collect(), commit.cmr())?;
+    // the same DAG rebuilt bottom-up through Node::from_parts (the constructor behind the
+    // human-readable encoding's nodes), which computes each root itself from `inner`
+    {
+        let mut rebuilt: Vec<Arc<simplicity::CommitNode>> = vec![];
+        for d in commit.as_ref().post_order_iter::<InternalSharing>() {
+            let inner = d
+                .node
+                .inner()
+                .as_ref()
+                .map_left_right(|_| rebuilt[d.left_index.unwrap()].clone(), |_| rebuilt[d.right_index.unwrap()].clone())
+                .map_disconnect(|x| x.clone())
+                .map_witness(|w| w.clone());
+            let n = simplicity::node::Node::<simplicity::node::Commit>::from_parts(inner, d.node.cached_data().clone());
+            if n.cmr() != d.node.cmr() {
+                return Err(format!("Node::from_parts computes cmr {} for a {} node whose root is {}; program {}", n.cmr(), format!("{:?}", d.node.inner()).split(['(', ' ']).next().unwrap_or("?"), d.node.cmr(), prog.render()));
+            }
+            rebuilt.push(Arc::new(n));
+        }
+        cx.label("from_parts rebuild checked");
+    }
     // named nodes
     {
         let forest = Forest::from_program(commit.clone());
@@ -257,6 +277,7 @@ pub fn case(cx: &mut Case) -> CaseResult {
     })?;
     // 2. two witness assignments, redeem form and back
     let mut vb = ValBuilder::new();
+    vb.constructors_only = true; // witness values by plain constructors: the value decoders are not this check's subject (C10) and must not make the harness inconsistent
     let mut roots_seen = vec![];
     for round in 0..2 {
         let mut s = cx.src.clone();
